@@ -19,7 +19,7 @@ META = {
     "4K+8 so non-termination is a failing outcome.",
     "bounds": {"quick": "K <= 4 indexed nodes, 1-2 regions, second contig with 1 node; end to end (real index.run then view.run -r, also as the "
                         "second index run of the process on another build of the graph): 4 records over 6 segments, one region", "thorough": "K <= 6, up to 3 regions"},
-    "out": ["K > 6", "malformed region strings", "regions on contigs that are not in the index"],
+    "out": ["K > 6", "malformed region strings", "regions on contigs that are not in the graph"],
     "assumptions": ["the pickled index is an association list with dict interface (keys(), [key]) so symbolic node intervals need no hashing",
                     "GAF reader stub: read_line(offset) returns the record registered at that offset"],
 }
@@ -82,6 +82,8 @@ def harnesses(tier):
         hs.append({"id": "run/K%d/r1" % k, "params": {"kind": "run", "k": k, "regions": 1}, "timeout": 600 if k < 4 else 1800, "twin": k == 2})
     hs.append({"id": "run/K2/r2", "params": {"kind": "run", "k": 2, "regions": 2}, "timeout": 900})
     hs.append({"id": "run/K2/r2-other-contig", "params": {"kind": "run", "k": 2, "regions": 2, "other": True}, "timeout": 900})
+    hs.append({"id": "run/K2/r2-contig-without-alignments", "params": {"kind": "run", "k": 2, "regions": 2, "other": "unindexed"}, "timeout": 900})
+    hs.append({"id": "run/K2/r3-contig-without-alignments", "params": {"kind": "run", "k": 2, "regions": 3, "other": "unindexed"}, "timeout": 1800})
     hs.append({"id": "run/K2/r3-revisit-contig", "params": {"kind": "run", "k": 2, "regions": 3, "other": True}, "timeout": 1800})
     for prior in (0, 1):
         hs.append({"id": "e2e/index+region/%s" % ("second-graph-in-process" if prior else "first"), "params": {"kind": "e2e", "prior": prior, "k": 0}, "timeout": 900})
@@ -176,7 +178,7 @@ def build_digits():
 
 E2E_WALKS = [">s0>s1", ">s2", ">s1>a1", "<b0"]
 # the same segment names cut differently (another build of the graph)
-E2E_LAY2 = {"s0": ("chr1", 0, 4, 0), "s1": ("chr1", 4, 8, 0), "s2": ("chr1", 12, 18, 0), "a0": ("hapA", 100, 4, 1), "a1": ("hapA", 110, 10, 1), "b0": ("hapB", 7, 2, 2)}
+E2E_LAY2 = {"s0": ("chr1", 0, 4, 0), "s1": ("chr1", 4, 8, 0), "s2": ("chr1", 12, 18, 0), "a0": ("hap-A.1", 100, 4, 1), "a1": ("hap-A.1", 110, 10, 1), "b0": ("hap_B#2", 7, 2, 2)}
 
 
 def e2e_want(a, b):
@@ -333,7 +335,10 @@ def build(params):
         regions = []
         want_nodes = []
         for r, (a, b) in enumerate(regs):
-            if params.get("other") and r == 1:
+            if params.get("other") == "unindexed" and r == 1:
+                # a contig of the graph none of whose nodes has alignments: nothing of it is in the index
+                regions.append(region_str("chrU", a, b))
+            elif params.get("other") and r == 1:
                 regions.append(region_str("hapQ", a, b))
                 if 3 <= b and a < 9:
                     want_nodes.append("y0")
@@ -394,7 +399,7 @@ def replay(params, model, wd):
     else:
         regs = []
         for r in range(params["regions"]):
-            c = "hapQ" if (params.get("other") and r == 1) else "chr1"
+            c = ("chrU" if params.get("other") == "unindexed" else "hapQ") if (params.get("other") and r == 1) else "chr1"
             regs.append((c, a_[used + 2 * r], a_[used + 2 * r + 1]))
     # chr1 is tiled: gaps become unaligned filler nodes u<i>
     segs = []
@@ -406,6 +411,7 @@ def replay(params, model, wd):
         pos = e
     segs.append(("utail", "chr1", pos, 5, 0))
     segs.append(("y0", "hapQ", 3, 6, 1))
+    segs.append(("v0", "chrU", 0, 50, 0))  # a second reference contig that nothing is aligned to
     gfa = os.path.join(wd, "g.gfa")
     with open(gfa, "w") as fh:
         for nid, sn, so, ln, sr in segs:
